@@ -38,11 +38,14 @@ EXCLUDE = {
     "int.mod.neg_divisor",
     "int.divmod.neg_divisor",
     "int.rshift.neg_lhs",
+    "nat.divmod.invalid_hugr",
     "float.floordiv.inexact_quotient",
     "float.mod.inexact_quotient",
     "float.mod.rounded_product",
+    "float.mod.zero_sign",
     "float.divmod.inexact_quotient",
     "float.divmod.rounded_product",
+    "float.divmod.zero_sign",
 }
 if os.environ.get("C04_EXCLUDE") is not None:
     _e = os.environ["C04_EXCLUDE"].strip()
@@ -156,12 +159,20 @@ def expected_rt(cell):
 
 
 def needs_ffloor(cell):
+    """Cells whose lowering uses a float op the installed selene cannot emit (ffloor, fabs): they
+    only run in single-call constant form."""
+    if cell["op"] == "abs" and cell["forms"] == ["float"]:
+        return True
     return cell["op"] in ("floordiv", "mod", "divmod") and join_kind(cell) == "float"
 
 
 # ----------------------------------------------------------------------------- oracle
 UNDEF = "undefined"
 LIMIT = "oracle-limit"
+BOUND = "emulator-bound"
+OUT_OF_NAT = "negative-to-nat"
+EXP_MAX = 10**6  # the emulator's ipow is a linear loop: larger integer exponents are not evaluated
+WATCHDOG_S = 30  # per emulated program; a program normally runs for milliseconds
 
 
 def wrap_s(v):
@@ -204,6 +215,8 @@ def py_value(cell, pair):
         if op == "to_float":
             return float(a)
         if op in ("to_int", "to_nat"):
+            if op == "to_nat" and a < 0:
+                return OUT_OF_NAT  # includes floats in (-1, 0): see assumptions
             if k == "float":
                 t = math.trunc(a)
                 lo, hi = (-I63, I63 - 1) if op == "to_int" else (0, M64 - 1)
@@ -225,6 +238,8 @@ def py_value(cell, pair):
         if intlike:
             if b < 0:
                 return UNDEF
+            if b > EXP_MAX:
+                return BOUND
             return pow(a % M64, b, M64)
         try:
             r = a ** b
@@ -293,7 +308,8 @@ def float_model(op, a, b):
     """The floor(a/b)-based formulas (what a correct IEEE evaluation of the *documented
     library source* would give) - used only to delimit the known finding classes."""
     try:
-        q = float(math.floor(a / b)) if math.isfinite(a / b) else a / b
+        d = a / b
+        q = math.copysign(float(math.floor(d)), d) if math.isfinite(d) else d  # ffloor keeps -0.0
         m = a - q * b
     except (OverflowError, ZeroDivisionError, ValueError):
         return None
@@ -309,6 +325,8 @@ def known_class(cell, pair):
     j = join_kind(cell)
     a = coerce(pair[0], KIND[cell["forms"][0]], j)
     b = coerce(pair[1], KIND[cell["forms"][1]], j)
+    if j == "nat" and op == "divmod":
+        return "nat.divmod.invalid_hugr"  # whole cell: the compiled program does not validate
     if j == "int":
         if op in ("floordiv", "mod", "divmod") and b < 0 and a != 0:
             return f"int.{op}.neg_divisor"
@@ -327,10 +345,14 @@ def known_class(cell, pair):
         if op == "mod":
             if msame:
                 return None
-            return "float.mod.rounded_product" if qsame else "float.mod.inexact_quotient"
+            if not qsame:
+                return "float.mod.inexact_quotient"
+            return "float.mod.zero_sign" if m == pm else "float.mod.rounded_product"
         if qsame and msame:
             return None
-        return "float.divmod.rounded_product" if qsame else "float.divmod.inexact_quotient"
+        if not qsame:
+            return "float.divmod.inexact_quotient"
+        return "float.divmod.zero_sign" if m == pm else "float.divmod.rounded_product"
     return None
 
 
@@ -397,6 +419,16 @@ def nontrivial(cell, pair):
         elif not v > 0:
             return True
     return False
+
+
+def in_type(v, kind):
+    if kind == "int":
+        return isinstance(v, int) and not isinstance(v, bool) and -I63 <= v < I63
+    if kind == "nat":
+        return isinstance(v, int) and not isinstance(v, bool) and 0 <= v < M64
+    if kind == "float":
+        return isinstance(v, float) and math.isfinite(v)
+    return isinstance(v, bool)
 
 
 def in_domain_literal(v, form):
@@ -544,11 +576,11 @@ def probe_cell(cell):
     if out.kind == "rejected":
         err = out.exc.error
         name = type(err).__name__
-        if name == "TypeMismatchError" and getattr(err, "actual", None) is not None:
+        if name == "TypeMismatchError" and str(getattr(err, "expected", "")) == "None":
             t = str(err.actual)
             res = (t, None) if t in ANNOT else (None, f"result type {t}")
         else:
-            res = (None, name)
+            res = (None, name + (":argument" if name == "TypeMismatchError" else ""))
     elif out.kind == "crash":
         res = (None, "crash:" + runner.crash_bucket(out.exc))
     _probe_cache[cid] = res
@@ -577,6 +609,10 @@ def oracle(cell, rt, pair, use_exclude=True):
         return "skip", "dropped:undefined_in_python"
     if raw is LIMIT:
         return "skip", "exclude:oracle-limit: int/int true division with an operand above 2^53"
+    if raw is BOUND:
+        return "skip", "dropped:int_exponent_above_emulator_bound"
+    if raw is OUT_OF_NAT:
+        return "skip", "dropped:negative_source_of_nat()_is_out_of_range(panics)"
     kc = known_class(cell, pair)
     if use_exclude and kc in EXCLUDE:
         return "skip", "exclude:" + kc
@@ -594,12 +630,35 @@ def judge(cell, rt, pair, exp, obs):
     return known_class(cell, pair) or f"{combo_name(cell)}.{cell['op']}.{pair_class(cell, pair)}"
 
 
+_watchdog = [False]
+
+
+def install_watchdog():
+    """Give every emulator run a timeout (harness side; the runner sets none)."""
+    if _watchdog[0]:
+        return
+    import datetime
+
+    from guppylang.emulator.instance import EmulatorInstance
+
+    orig = EmulatorInstance.run
+
+    def run(self):
+        if self.timeout is None:
+            self = self.with_timeout(datetime.timedelta(seconds=WATCHDOG_S))
+        return orig(self)
+
+    EmulatorInstance.run = run
+    _watchdog[0] = True
+
+
 def run_units(units, const_form=False, use_exclude=True, max_reruns=3):
     """Run `units` = [(cell, rt, pairs)] as one program (re-running behind a panic; splitting
     into one program per unit if the merged program cannot be built/run).
     -> [(verdicts, problems)] per unit; problems = [(kind, message, src)]."""
     from vlib import runner
 
+    install_watchdog()
     res = [([], []) for _ in units]
     todo = [list(range(len(pairs))) for _, _, pairs in units]  # indices still to evaluate
     reruns = 0
@@ -610,6 +669,12 @@ def run_units(units, const_form=False, use_exclude=True, max_reruns=3):
         out, lm = runner.run_source(src, n_qubits=1)
         if lm is not None:
             lm.dispose()
+        trap = False
+        if (out.kind == "unsupported" and out.title == "selene-run" and "Timed out" not in out.message
+                and getattr(out.exc, "failing_shot", None) is not None):
+            # the emulated process died (native trap): judge like a panic behind the partial stream
+            out.stream = [(t, runner.norm_value(v)) for t, v in out.exc.failing_shot.entries]
+            out.kind, trap = "panic", True
         if out.kind not in ("ok", "panic"):
             if len(live) > 1:  # isolate the unit that cannot be built
                 for u in live:
@@ -617,6 +682,23 @@ def run_units(units, const_form=False, use_exclude=True, max_reruns=3):
                                   use_exclude, max_reruns)[0]
                     res[u][0].extend(r[0])
                     res[u][1].extend(r[1])
+            elif out.kind == "unsupported" and "Timed out" in out.message:
+                # the program does not terminate within the watchdog: bisect to one pair
+                u = live[0]
+                cell, rt, ps = sub[0]
+                if len(ps) > 1:
+                    for half in (ps[:len(ps) // 2], ps[len(ps) // 2:]):
+                        r = run_units([(cell, rt, half)], const_form, use_exclude, max_reruns)[0]
+                        res[u][0].extend(r[0])
+                        res[u][1].extend(r[1])
+                else:
+                    p = tuple(ps[0])
+                    st, exp = oracle(cell, rt, p, use_exclude)
+                    if st != "skip":
+                        res[u][0].append(Verdict(
+                            p, "bad", f"{combo_name(cell)}.{cell['op']}.timeout.{pair_class(cell, p)}",
+                            f"{describe(cell, p)}: guppy program does not finish within {WATCHDOG_S}s, "
+                            f"python {exp!r} (as {rt})", exp, "timeout"))
             else:
                 res[live[0]][1].append((out.kind, (out.title + " " + out.message)[:1500], src))
             break
@@ -683,10 +765,11 @@ def run_units(units, const_form=False, use_exclude=True, max_reruns=3):
         if st == "skip":
             res[live[k]][0].append(Verdict(p, "skip", detail=exp))
         else:
+            what = "trap" if trap else "panic"
             res[live[k]][0].append(Verdict(
-                p, "bad", f"{combo_name(cell)}.{cell['op']}.panic.{pair_class(cell, p)}",
-                f"{describe(cell, p)}: guppy panics ({out.message[:200]}), python {exp!r} (as {rt})",
-                exp, "panic: " + out.message[:200]))
+                p, "bad", known_class(cell, p) or f"{combo_name(cell)}.{cell['op']}.{what}.{pair_class(cell, p)}",
+                f"{describe(cell, p)}: guppy {'process dies' if trap else 'panics'} ({out.message[:200]}), "
+                f"python {exp!r} (as {rt})", exp, f"{what}: " + out.message[:200]))
         # what is left: the rest of the culprit's unit and every later unit
         order = [it[2] for it in plan if it[0] == "pair" and it[1] == k]
         for kk in range(k):
@@ -716,6 +799,10 @@ def prepare(ctx, cell, rt, pairs, count_excl=True):
         seen.add(key)
         if not all(in_domain_literal(v, f) for v, f in zip(p, cell["forms"]) if f in LIT):
             continue
+        if not all(in_type(v, KIND[f]) for v, f in zip(p, cell["forms"])):
+            if ctx is not None:
+                ctx.harness_error(f"generator produced {p} for {cell_id(cell)}")
+            continue
         st, x = oracle(cell, rt, p)
         if st == "skip":
             note_skip(ctx, x, count_excl)
@@ -736,6 +823,10 @@ def note_skip(ctx, why, count_excl=True):
         ctx.label(why)
 
 
+def nonexec_bucket(cell, kind):
+    return f"{join_kind(cell)}.{cell['op']}." + ("invalid_hugr" if kind == "invalid" else "compile_crash")
+
+
 def case_of(cell, rt, pair, exp, obs):
     src, _ = build_source(cell, rt, [pair], needs_ffloor(cell))
     return {"cell": {"op": cell["op"], "forms": cell["forms"]}, "rt": rt, "pair": list(pair),
@@ -751,7 +842,7 @@ def replay(case):
         out, lm = runner.run_source(case["source"], n_qubits=1)
         if lm is not None:
             lm.dispose()
-        return (f"nonexec.{out.kind}.{cell_id(cell)}", out.brief()) if out.kind in ("crash", "invalid") else None
+        return (nonexec_bucket(cell, out.kind), out.brief()) if out.kind in ("crash", "invalid") else None
     rt, why = probe_cell(cell)
     if rt is None:
         return ("cell_rejected", f"{cell_id(cell)} is no longer accepted by the checker: {why}")
@@ -764,13 +855,17 @@ def replay(case):
     if rt != expected_rt(cell):
         return (f"{combo_name(cell)}.{cell['op']}.result_type", f"{cell_id(cell)}: guppy types the result as {rt}, "
                 f"the coercion lattice gives {expected_rt(cell)}")
+    if oracle(cell, rt, pair, use_exclude=False)[0] == "skip":
+        return None  # outside the judged domain (undefined in Python / oracle limit / emulator bound)
     verdicts, problems = run_pairs(cell, rt, [pair], needs_ffloor(cell), use_exclude=False)
     for v in verdicts:
         if v.status == "bad":
             return (v.bucket, v.detail)
     for kind, msg, _ in problems:
-        if kind in ("crash", "invalid", "rejected"):
-            return (f"nonexec.{kind}.{cell_id(cell)}", msg)
+        if kind in ("crash", "invalid"):
+            return (nonexec_bucket(cell, kind), msg)
+        if kind == "rejected":
+            return ("cell_rejected", msg)
     return None
 
 
@@ -786,9 +881,12 @@ PROBES = {
     "int.rshift.neg_lhs": probe_case("rshift", ["int", "int"], [-8, 1]),
     "float.floordiv.inexact_quotient": probe_case("floordiv", ["float", "float"], [1.0, 0.1]),
     "float.mod.inexact_quotient": probe_case("mod", ["float", "float"], [1.0, 0.1]),
-    "float.mod.rounded_product": probe_case("mod", ["float", "float"], [0.5, 0.1]),
+    "float.mod.rounded_product": probe_case("mod", ["float", "float"], [-1.0, 0.1]),
+    "float.mod.zero_sign": probe_case("mod", ["float", "float"], [0.0, -2.0]),
     "float.divmod.inexact_quotient": probe_case("divmod", ["float", "float"], [1.0, 0.1]),
-    "float.divmod.rounded_product": probe_case("divmod", ["float", "float"], [0.5, 0.1]),
+    "float.divmod.rounded_product": probe_case("divmod", ["float", "float"], [-1.0, 0.1]),
+    "float.divmod.zero_sign": probe_case("divmod", ["float", "float"], [0.0, -2.0]),
+    "nat.divmod.invalid_hugr": probe_case("divmod", ["nat", "nat"], [7, 2]),
 }
 
 
@@ -810,8 +908,8 @@ def make_strategies():
                      st.integers(-10**6, 10**6).map(lambda n: n / 10),
                      st.floats(-2.3e-308, 2.3e-308))
     counts = st.one_of(st.sampled_from([0, 1, 2, 31, 32, 33, 62, 63]), st.integers(0, 63))
-    exps_i = st.one_of(st.sampled_from([0, 1, 2, 3, 4, 5, 10, 31, 62, 63, 64, 65, 127, 128, 2**31, I63 - 1]),
-                       st.integers(0, 200), st.integers(0, I63 - 1))
+    exps_i = st.one_of(st.sampled_from([0, 1, 2, 3, 4, 5, 10, 31, 62, 63, 64, 65, 127, 128, 1000, 65537, EXP_MAX]),
+                       st.integers(0, 200), st.integers(0, EXP_MAX))
     exps_small = st.one_of(st.integers(-8, 12), st.integers(-300, 300))
     exps_f = st.one_of(st.sampled_from([0.0, 0.5, 1.0, 2.0, -1.0, -2.0, 3.0, 1 / 3, 0.1, 10.0, -0.5, 100.0, 1e-3]),
                        st.floats(-20, 20), flts)
@@ -834,11 +932,11 @@ def make_strategies():
             if op in SHIFT:
                 s = counts
             elif op in POW:
-                s = exps_i if j in ("int", "nat") else exps_small
+                s = exps_i if j in ("int", "nat") else (exps_small if k == "int" else st.integers(0, 300))
         elif i == 1 and k == "float" and op in POW:
             s = exps_f
         elif i == 0 and op in POW and j == "float":
-            s = base_f if k == "float" else st.one_of(st.integers(-20, 20), s)
+            s = base_f if k == "float" else st.one_of(st.integers(-20 if k == "int" else 0, 20), s)
         if form in LIT:
             return None, s
         return s, None
@@ -853,6 +951,8 @@ def core_pairs(cell):
         vals = LITPOOL[f] if f in LIT else CORE[f]
         if len(forms) == 2 and i == 1 and KIND[f] in ("int", "nat") and cell["op"] in SHIFT:
             vals = [v for v in vals if 0 <= v < 64] or vals
+        if len(forms) == 2 and i == 1 and KIND[f] in ("int", "nat") and cell["op"] in POW:
+            vals = [v for v in vals if abs(v) <= 64] + [5, 64, 1000]
         cols.append(vals)
     return list(itertools.product(*cols))
 
@@ -936,13 +1036,12 @@ def worker(ctx):
                 ctx.label("in_known_class_but_agrees:" + known_class(cell, v.pair))
         for kind, msg, src in problems:
             if kind == "unsupported":
-                why = ("ffloor: constant form not folded by selene" if needs_ffloor(cell)
+                why = ("ffloor/fabs: constant form not folded by selene" if needs_ffloor(cell)
                        else "selene could not build/run: " + cell_id(cell))
                 ctx.unsupported_case(why)
                 notes_unsup.setdefault(cell_id(cell), msg[:300])
             elif kind in ("crash", "invalid"):
-                ctx.violation(f"nonexec.{kind}.{cell_id(cell)}", {"cell": cell, "rt": rt, "source": src, "pair": None},
-                              msg)
+                ctx.violation(nonexec_bucket(cell, kind), {"cell": cell, "rt": rt, "source": src, "pair": None}, msg)
             elif kind == "skipped":
                 ctx.label("pairs_skipped_after_repeated_panics")
             else:
@@ -985,7 +1084,16 @@ def worker(ctx):
             cp = prepare(ctx, cell, rt, core, count_excl=False)
             dp = prepare(ctx, cell, rt, drawn)
             k = P["ffloor_pairs"]
-            sel = (cp[ci % 3::3][:max(1, k // 3)] + dp[:k])[:k]
+            cand, seen_cls, first, rest = cp[ci % 3::3][:max(1, k // 3)] + dp + cp, set(), [], []
+            for p in cand:  # one pair of every (unexcluded) finding class first, then in draw order
+                kc = known_class(cell, p)
+                (first if kc and kc not in seen_cls else rest).append(p)
+                seen_cls.add(kc)
+            sel = []
+            for p in rest[:1] + first + rest[1:]:
+                if p not in sel:
+                    sel.append(p)
+            sel = sel[:max(k, len(first) + 1)]
             if not sel:
                 ctx.label("cell:no_defined_pairs")
             singles.extend((cell, rt, p) for p in sel)
@@ -1053,7 +1161,7 @@ def worker(ctx):
 
     # minimise every new bucket over a grid of small operands of its cell (one program)
     for b, (cell, rt) in sorted(new_buckets.items()):
-        if ctx.out_of_time(0.97) or ".result_type" in b or b.startswith("nonexec."):
+        if ctx.out_of_time(0.97) or ".result_type" in b or b.endswith((".invalid_hugr", ".compile_crash")):
             continue
         cols = [(LITPOOL[f][:6] if f in LIT else GRID[KIND[f]]) for f in cell["forms"]]
         gp = prepare(None, cell, rt, list(itertools.product(*cols)))
@@ -1093,7 +1201,7 @@ SPEC = harness.Spec(
           "types}, all enumerated each run; a cell rejected by the checker is outside the domain. Per accepted cell: "
           "core cross product of small/extreme values (enumerated) + Hypothesis-drawn pairs (boundary set U random "
           "magnitudes; shift counts in [0,64), non-negative int exponents, non-zero divisors, in-range float->int "
-          "sources by construction; pairs where CPython raises are dropped), evaluated as runtime operands by one "
+          "sources, integer exponents <= 10^6 by construction; pairs where CPython raises are dropped), evaluated as runtime operands by one "
           "compiled program per <=batch pairs; float // % divmod cells one pair per program in constant form. "
           "non-trivial = pair with a boundary value or a sign pattern other than all-positive (bool: contains "
           "False); distinct = distinct (cell, operand pair). Oracle: CPython on operands coerced to the join type, "
@@ -1108,15 +1216,17 @@ SPEC = harness.Spec(
         "inf / nan operands are not generated (selene cannot build inf/nan constants); inf results of finite operands are",
         "nat observations are compared modulo 2^64 (the result channel may report them signed: property C17)",
         "unary operators and conversions are applied to variables only; literal-literal cells are not generated",
+        "integer exponents are bounded by 10^6: the installed emulator lowers ipow to a loop that is linear in the "
+        "exponent (2^63-1 does not terminate in practical time) - toolchain cost, not judged",
         "Hypothesis' own draw distribution and CPython's arithmetic are trusted",
     ],
     shards={"quick": 16, "thorough": 16},
-    budget_s={"quick": 420, "thorough": 3000},
+    budget_s={"quick": 900, "thorough": 3600},
     params={"quick": {"pairs": 48, "batch": 256, "lit_extra": 2, "ffloor_pairs": 3, "ffloor_draw": 24,
                       "cells_per_program": 8, "pairs_per_program": 1200},
             "thorough": {"pairs": 1000, "batch": 256, "lit_extra": 10, "ffloor_pairs": 18, "ffloor_draw": 200,
                          "cells_per_program": 8, "pairs_per_program": 1200}},
-    min_nontrivial=8000,
+    min_nontrivial=20000,
 )
 
 if __name__ == "__main__":
